@@ -73,19 +73,57 @@ def fs_queries(Query, ops, cfgs, timeout=400, unwind=12):
     return qs
 
 ALL_OPS = VEC_OPS_UNARY + VEC_OPS_CTOR + VEC_OPS_BINARY
+INPUT_OPS = [o for o in ALL_OPS if 'input' in o]
+NONINPUT_OPS = [o for o in ALL_OPS if 'input' not in o]
+MUTATING = [o for o in NONINPUT_OPS if o not in ('access', 'compare', 'ctor_default')]
+# operations whose code path depends on the element traits (relocatable or not) or that move elements around
+TRAIT_OPS = ['push_back_copy', 'emplace_back', 'pop_back_val', 'insert_one_copy', 'insert_one_move', 'emplace', 'insert_n', 'insert_range_fwd',
+             'assign_range_ptr', 'erase_one', 'erase_range', 'resize_val', 'assign_n', 'shrink_to_fit', 'reserve', 'copy_ctor', 'move_ctor',
+             'copy_assign', 'move_assign', 'swap_member', 'ctor_range']
+
+def input_cfg(d):
+    d = dict(d); d['VF_COUNT_MAX'] = 2; d['VF_MAXM'] = d['VF_CMAX'] + 3
+    return d
+
+def vec_plan(Query, pid, tier):
+    q = []
+    sv2B = vec_cfg(1, 2, 'B')
+    if tier == 'quick':
+        if pid == 'C01':
+            q += vec_queries(Query, NONINPUT_OPS, [sv2B, vec_cfg(0, 0, 'B', s='uint32_t'), vec_cfg(2, 3, 'R')])
+            q += vec_queries(Query, INPUT_OPS, [input_cfg(vec_cfg(1, 2, 'B', cls=0)), input_cfg(vec_cfg(1, 2, 'B', cls=1, cmax=3))])
+            q += vec_queries(Query, TRAIT_OPS, [vec_cfg(1, 2, 'X', ak=2, cls=0), vec_cfg(1, 2, 'X', ak=2, cls=1)])
+        elif pid == 'C02':
+            q += vec_queries(Query, MUTATING, [vec_cfg(1, 2, 'X', ak=2, cls=0), vec_cfg(1, 2, 'X', ak=2, cls=1), vec_cfg(1, 3, 'R', ak=0)])
+            q += vec_queries(Query, TRAIT_OPS, [vec_cfg(2, 3, 'X'), vec_cfg(0, 0, 'X', ak=1, s='uint32_t')])
+        elif pid == 'C05':
+            q += vec_queries(Query, NONINPUT_OPS, [vec_cfg(1, 2, 'B', cls=0), vec_cfg(1, 3, 'R', cls=0), vec_cfg(2, 3, 'B')])
+            q += vec_queries(Query, VEC_OPS_BINARY + ['copy_ctor', 'move_ctor', 'shrink_to_fit', 'reserve'], [sv2B])
+            q += vec_queries(Query, TRAIT_OPS, [vec_cfg(1, 2, 'X', ak=2, cls=0)])
+        elif pid == 'C06':
+            q += vec_queries(Query, MUTATING, [vec_cfg(1, 2, 'B', ak=0), vec_cfg(1, 2, 'B', ak=1, cls=1), vec_cfg(0, 0, 'B', ak=2, s='uint32_t')])
+            q += vec_queries(Query, TRAIT_OPS, [vec_cfg(1, 2, 'X', ak=2, cls=1), vec_cfg(1, 3, 'R', ak=2, cls=1)])
+        elif pid == 'C07':
+            q += vec_queries(Query, NONINPUT_OPS, [sv2B, vec_cfg(0, 0, 'B', s='uint32_t')])
+            q += vec_queries(Query, TRAIT_OPS, [vec_cfg(1, 2, 'X', ak=2, cls=0), vec_cfg(1, 2, 'X', ak=2, cls=1), vec_cfg(1, 3, 'R', ak=0)])
+    else:
+        cfgs = [sv2B, vec_cfg(0, 0, 'B', s='uint32_t'), vec_cfg(2, 3, 'R'), vec_cfg(2, 3, 'B'), vec_cfg(2, 3, 'X'),
+                vec_cfg(1, 2, 'X', ak=2, cls=0), vec_cfg(1, 2, 'X', ak=2, cls=1), vec_cfg(1, 3, 'R', ak=0), vec_cfg(1, 3, 'R', ak=2, cls=1),
+                vec_cfg(0, 0, 'X', ak=1, s='uint32_t'), vec_cfg(0, 0, 'R', ak=2, s='uint16_t'),
+                vec_cfg(1, 4, 'B', ak=1, s='uint16_t'), vec_cfg(1, 3, 'W', ak=2, s='int32_t'), vec_cfg(1, 3, 'T3', ak=0, s='int8_t'),
+                vec_cfg(1, 2, 'B', ak=2, s='uint64_t'), vec_cfg(0, 0, 'T3', ak=1, s='uint8_t'), vec_cfg(1, 1, 'X', ak=1, cls=2), vec_cfg(2, 4, 'W')]
+        q += vec_queries(Query, NONINPUT_OPS, cfgs, timeout=900)
+        q += vec_queries(Query, INPUT_OPS, [input_cfg(vec_cfg(1, 2, 'B', cls=0)), input_cfg(vec_cfg(1, 2, 'B', cls=1, cmax=3)),
+                                            input_cfg(vec_cfg(0, 0, 'B', s='uint32_t', cmax=3)), input_cfg(vec_cfg(2, 3, 'R')),
+                                            input_cfg(vec_cfg(1, 2, 'X', ak=2, cls=0))], timeout=900)
+    return q
 
 def plan(pid, tier, Query):
     quick = tier == 'quick'
-    if tier.startswith('survey'):
-        cfgs = {'survey1': [vec_cfg(1, 2, 'X', ak=2, cls=0), vec_cfg(1, 2, 'X', ak=2, cls=1)],
-                'survey2': [vec_cfg(0, 0, 'B'), vec_cfg(2, 3, 'R'), vec_cfg(1, 3, 'R', ak=0), vec_cfg(0, 0, 'X', ak=1)],
-                'survey3': [vec_cfg(1, 4, 'W', ak=1, s='uint16_t'), vec_cfg(1, 3, 'T3', ak=2, s='int8_t'), vec_cfg(2, 3, 'X')]}[tier]
-        return vec_queries(Query, ALL_OPS, cfgs, timeout=600)
     if tier == 'fsurvey':
         return (fs_queries(Query, FS_OPS, [fs_cfg(0, cmp=2, d=1, sh=1), fs_cfg(1, cmp=0), fs_cfg(2, n=6, cmp=3)] ) +
                 fs_queries(Query, ['lookup_transparent'], [fs_cfg(2, n=6, cmp=3)]) +
                 fs_queries(Query, FS_OPS_SORT, [fs_cfg(0, cmp=2, d=1, sh=1, stub=True), fs_cfg(1, cmp=0, stub=True), fs_cfg(1, cmp=0, mx=2)]))
     if pid in ('C01', 'C02', 'C05', 'C06', 'C07'):
-        cfgs = [vec_cfg(1, 2, 'B')]
-        return vec_queries(Query, ALL_OPS, cfgs)
+        return vec_plan(Query, pid, tier)
     return []
